@@ -35,7 +35,9 @@ pub fn inputs_of(c: &Case, spec: &GrammarSpec) -> Vec<String> {
         .enumerate()
         .map(|(ii, tape)| {
             let mut t2 = tape.clone();
-            t2.kind = 0; // sentences
+            if ii % 3 != 1 {
+                t2.kind = 0; // sentences; every third input is a mutation (often a non-sentence)
+            }
             let toks = gen::tokens_for(&bnf, &t2, 14);
             let mut cur = Cursor::new(&tape.tape);
             gen::render_tokens(&spec.terms, &toks, if ii % 2 == 0 { LayoutStyle::Ascii } else { LayoutStyle::Minimal }, &mut cur).text
@@ -165,7 +167,9 @@ fn driver(c: &Case, inputs: &[String]) -> String {
     if c.glr {
         s.push_str("    for (k, inp) in inputs.iter().enumerate() {\n        let r = std::panic::catch_unwind(|| match GParser::new().parse(inp) {\n            Ok(f) => match f.get_first_tree() { Some(t) => { let mut b = DefaultBuilder::new(); let a = t.build::<_, State>(&mut b); format!(\"P {k} OK {} {:?}\", f.solutions(), a) } None => format!(\"P {k} NOTREE\") },\n            Err(_) => format!(\"P {k} ERR\"),\n        });\n        out.push_str(&r.unwrap_or(format!(\"P {k} PANIC\")));\n        out.push('\\n');\n    }\n");
     } else {
-        s.push_str("    for (k, inp) in inputs.iter().enumerate() {\n        let r = std::panic::catch_unwind(|| match GParser::new().parse(inp) {\n            Ok(a) => format!(\"P {k} OK 1 {:?}\", a),\n            Err(_) => format!(\"P {k} ERR\"),\n        });\n        out.push_str(&r.unwrap_or(format!(\"P {k} PANIC\")));\n        out.push('\\n');\n    }\n");
+        // one parser instance is used for all inputs (valid and invalid interleaved), as a user
+        // who keeps a parser around would do
+        s.push_str("    let parser = std::panic::AssertUnwindSafe(GParser::new());\n    for (k, inp) in inputs.iter().enumerate() {\n        let r = std::panic::catch_unwind(|| match parser.parse(inp) {\n            Ok(a) => format!(\"P {k} OK 1 {:?}\", a),\n            Err(_) => format!(\"P {k} ERR\"),\n        });\n        out.push_str(&r.unwrap_or(format!(\"P {k} PANIC\")));\n        out.push('\\n');\n    }\n");
     }
     s.push_str("    out\n}\n");
     s
@@ -354,7 +358,7 @@ pub fn run(tier: Tier, seed: u64, replay: Option<&Path>) -> RunResult {
         seed,
         st,
         failures,
-        "case = generated conflict-free AST-shape-rich grammar (enum / struct / ref / @vec in both recursion directions with and without separators and EMPTY base / ?*+ sugar / optional structs / recursive types / named and ?= assignments / production kinds) x {LR, GLR (first tree replayed through the generated DefaultBuilder)} x builder_loc_info, 8..11 derived sentences each. The real generated parser and actions are compiled by rustc and parse each sentence; the sequence of string literals in `{:?}` of the returned AST must equal the texts of the content-token (regex terminal) leaves of the generic tree of the same input (engine A), i.e. every content token once and in input order (so vectors are in input order); with loc_info off the number of `None` must equal the number of absent optionals. non-trivial = sentence with >= 3 content tokens passing through a @vec rule or an absent optional".into(),
+        "case = generated conflict-free AST-shape-rich grammar (enum / struct / ref / @vec in both recursion directions with and without separators and EMPTY base / ?*+ sugar / optional structs / recursive types / named and ?= assignments / production kinds) x {LR, GLR (first tree replayed through the generated DefaultBuilder)} x builder_loc_info, 8..11 inputs each (derived sentences with mutated, often invalid, inputs interleaved; one LR parser instance is reused for all of them). The real generated parser and actions are compiled by rustc and parse each sentence; the sequence of string literals in `{:?}` of the returned AST must equal the texts of the content-token (regex terminal) leaves of the generic tree of the same input (engine A), i.e. every content token once and in input order (so vectors are in input order); with loc_info off the number of `None` must equal the number of absent optionals. non-trivial = sentence with >= 3 content tokens passing through a @vec rule or an absent optional".into(),
         vec![
             "content tokens are digits / lower-case words, so they cannot be confused with identifiers in the Debug rendering".into(),
             "generated modules that do not compile are C11's subject (counted as discards)".into(),
